@@ -23,7 +23,7 @@
    form is null (null has no shape); a tagged transform with an untyped serial form does not hold a value of a
    tagged type (a token carries one tag).  Each restriction is needed (RoundTripProof.v, examples *_refuted). *)
 From Coq Require Import List ZArith.
-Require Import Tok GoVal Marshal Unmarshal ObjProof RoundTripProof.
+Require Import Tok GoVal Marshal Unmarshal ObjProof BoundsProof RoundTripProof JsonEnc JsonEncProof EndToEndProof.
 Import ListNotations.
 Open Scope Z_scope.
 
@@ -62,6 +62,33 @@ Example C01_token_roundtrip_all_entry_kinds :
   marshal s4_A 40 (GStruct 1) s4_v = MOk s4_ts /\
   unmarshal s4_E s4_A 60 (GStruct 1) (zero 50 s4_E (GStruct 1)) s4_ts = UOk s4_v' [].
 Proof. vm_compute. repeat split; reflexivity. Qed.
+
+(* ---------- the byte level (EndToEndProof.v): marshal, encode, decode, unmarshal ---------------------
+   cbor_marshal   = marshal_top then the CBOR encoder model;  cbor_unmarshal = the CBOR decoder model on the whole
+   input then unmarshal_top — the compositions the Go helpers MarshalAtlased / UnmarshalAtlased perform.
+   cranked A 3 : the atlas's token-free chains (transform wires, tags) are at most 3 long (fixed fuel of unmarshal_top);
+   cbor_ok     : the marshalled tokens are within the codec's limits (32 MiB per item, tag and length ranges). *)
+Theorem C01_cbor_end_to_end : forall E A t v bs,
+  atlas_wf E A = true -> cranked A 3 = true ->
+  wt E A t v -> domb E A t v = true -> cbor_ok E A t v = true ->
+  cbor_marshal E A t v = Some bs ->
+  exists n v', cbor_unmarshal E A t bs = Some (UTDone n v') /\ req E A t v v' /\ wt E A t v'.
+Proof. exact cbor_end_to_end. Qed.
+Print Assumptions C01_cbor_end_to_end.
+
+(* JSON, on the part JSON can represent (json_repr_ff: no byte strings, valid UTF-8, no floats; untyped slots hold
+   native values only — domb under the atlas stripped of tags), for every whitespace option — no hypothesis: *)
+Theorem C01_json_end_to_end_float_free : forall sh o E A t v bs,
+  ws_opts o ->
+  atlas_wf E A = true -> cranked A 3 = true ->
+  wt E A t v -> domb E (untag_atlas A) t v = true -> json_repr_ff E A t v = true ->
+  json_marshal sh o E A t v = Some bs ->
+  exists n v', json_unmarshal E A t bs = Some (UTDone n v') /\ req E A t v v' /\ wt E A t v'.
+Proof. exact json_end_to_end_float_free. Qed.
+Print Assumptions C01_json_end_to_end_float_free.
+(* with floats the statement is json_end_to_end / json_end_to_end_floats in EndToEndProof.v, under the shortest-digits
+   oracle hypothesis of C03; the exact read-back relation [jrel] records the property's exemptions: -0 reads back as 0,
+   an integral float in an untyped slot comes back as an integer. *)
 
 (* kernel-evaluated instance *)
 Example C01_token_roundtrip_example :
